@@ -85,8 +85,35 @@ class Fn:
     def elems(self, bid):
         return self.blocks[bid].get("elems", [])
 
+    def block_order(self):
+        """blocks in reverse post-order from the entry (execution order for straight-line code, loop bodies after their
+        heads), unreachable blocks last - independent of how block ids were assigned (inlining adds high ids)"""
+        o = getattr(self, "_order", None)
+        if o is not None:
+            return o
+        seen, post = set(), []
+        if self.entry is not None:
+            st = [(self.entry, iter([to for to, _ in self.succs(self.entry)]))]
+            seen.add(self.entry)
+            while st:
+                b, it = st[-1]
+                adv = False
+                for to in it:
+                    if to not in seen and to in self.blocks:
+                        seen.add(to)
+                        st.append((to, iter([t for t, _ in self.succs(to)])))
+                        adv = True
+                        break
+                if not adv:
+                    post.append(b)
+                    st.pop()
+        o = list(reversed(post)) + [b for b in sorted(self.blocks, reverse=True) if b not in seen]
+        self._order = o
+        return o
+
     def all_elems(self):
-        for bid, b in self.blocks.items():
+        for bid in self.block_order():
+            b = self.blocks[bid]
             for i, e in enumerate(b.get("elems", [])):
                 yield bid, i, e
 
@@ -486,3 +513,25 @@ def dump_fn(fn, out=None):
     if out:
         out.write(s + "\n")
     return s
+
+
+def strip_deep(n):
+    """copy of an expression tree without casts and without single-argument (copy/converting) constructions, at every level"""
+    if not isinstance(n, dict):
+        return n
+    k = n.get("k")
+    if k == "cast" and n.get("e") is not None:
+        return strip_deep(n["e"])
+    if k == "construct":
+        args = [a for a in n.get("args", []) if not (isinstance(a, dict) and a.get("k") == "defarg")]
+        if len(args) == 1:
+            return strip_deep(args[0])
+    out = {}
+    for kk, v in n.items():
+        if isinstance(v, dict):
+            out[kk] = strip_deep(v)
+        elif isinstance(v, list):
+            out[kk] = [strip_deep(x) if isinstance(x, dict) else x for x in v]
+        else:
+            out[kk] = v
+    return out
